@@ -1,5 +1,6 @@
 import Driver.Util
 import Driver.C20
+import Driver.C13
 /-!
 Line-protocol driver.  Reads one JSON object per line on stdin, each with a field `p`
 naming the property slice and an `id`; writes one JSON object per line with the same `id`
@@ -10,6 +11,7 @@ open Lean Driver
 def dispatch (j : Json) : Json :=
   match getStr j "p" with
   | "C20" => Driver.C20.handle j
+  | "C13" => Driver.C13.handle j
   | p => Json.mkObj [("bad-op", Json.str p)]
 
 partial def loop (hin hout : IO.FS.Stream) : IO Unit := do
